@@ -79,6 +79,9 @@ func newWallet(w *World, idx, home int) *Wallet {
 		types.PolicyThreshold(1, []types.SpendPolicy{types.PolicyPublicKey(pk(2)), types.PolicyPublicKey(pk(3))}),
 	})
 	add("pol-after-and-1of2", nil, &p5)
+	// a legacy address with a key of an unknown algorithm next to an ed25519 key
+	odd := types.UnlockConditions{PublicKeys: []types.UnlockKey{{Algorithm: types.NewSpecifier("a:b c"), Key: []byte{1, 2, 3, byte(idx)}}, pk(2).UnlockKey()}, SignaturesRequired: 1}
+	add("uc-odd-algorithm", &odd, nil)
 	return wl
 }
 
